@@ -94,7 +94,8 @@ Proof.
   rewrite <- (clamp_loop_id (eo_loop opts) Hloop), <- Eloop.
   unfold same_show.
   apply (generic_roundtrip norm_px norm_blend norm_zero rt_ll rt_ly repaired eq_refl eq_refl false)
-    with (oracle := oracle) (has_meta := has_meta) (simple := simple) (st0 := st0); try assumption; try reflexivity.
+    with (oracle := oracle) (has_meta := has_meta) (simple := simple) (st0 := st0); try assumption; try reflexivity;
+    try (match goal with |- _ <= max_canvas_dimension => unfold wf_canvas_dims in Hdims; lia end).
   - (* the codec hypothesis on the frames that can occur: VP8L only *)
     intros via r Hwfi Hl. unfold decoded. destruct (m_lossy r); [specialize (Hl eq_refl); discriminate|].
     destruct (Hcodec (m_img r) Hwfi) as (Hw & Hh & HF). repeat split; assumption.
@@ -113,7 +114,8 @@ Proof.
   rewrite <- (clamp_loop_id (eo_loop opts) Hloop), <- Eloop.
   apply (generic_roundtrip alpha_only alpha_blend) with (rt_ll := rt_ll) (rt_ly := rt_ly)
     (lossy_fine := true) (oracle := oracle) (has_meta := has_meta) (simple := simple) (st0 := st0);
-    try assumption; try reflexivity.
+    try assumption; try reflexivity;
+    try (match goal with |- _ <= max_canvas_dimension => unfold wf_canvas_dims in Hdims; lia end).
   - intros p q Hp Hq'. apply alpha_only_eq. lia.
   - intros via r Hwfi _. unfold decoded. destruct (m_lossy r).
     + cbn [repaired fix_alph orb].
@@ -164,7 +166,8 @@ Proof.
   unfold same_show.
   apply (generic_error_roundtrip norm_px norm_blend norm_zero rt_ll rt_ly repaired eq_refl eq_refl false)
     with (maxf := maxf) (oracle := oracle) (fails := fails) (has_meta := has_meta) (simple := simple)
-         (st0 := st0) (frames := frames) (stf := stf); try assumption; try reflexivity.
+         (st0 := st0) (frames := frames) (stf := stf); try assumption; try reflexivity;
+    try (match goal with |- _ <= max_canvas_dimension => unfold wf_canvas_dims in Hdims; lia end).
   - intros via r Hwfi Hl. unfold decoded. destruct (m_lossy r); [specialize (Hl eq_refl); discriminate|].
     destruct (Hcodec (m_img r) Hwfi) as (Hw & Hh & HF). repeat split; assumption.
   - intros Habs. rewrite Ell, Hll in Habs. discriminate.
@@ -181,7 +184,8 @@ Proof.
   apply (generic_error_roundtrip alpha_only alpha_blend) with (rt_ll := rt_ll) (rt_ly := rt_ly)
     (lossy_fine := true) (maxf := maxf) (oracle := oracle) (fails := fails) (has_meta := has_meta)
     (simple := simple) (st0 := st0) (frames := frames) (stf := stf);
-    try assumption; try reflexivity.
+    try assumption; try reflexivity;
+    try (match goal with |- _ <= max_canvas_dimension => unfold wf_canvas_dims in Hdims; lia end).
   - intros p q Hp Hq'. apply alpha_only_eq. lia.
   - intros via r Hwfi _. unfold decoded. destruct (m_lossy r).
     + cbn [repaired fix_alph orb].
@@ -191,4 +195,59 @@ Proof.
       eapply Forall2_weaken; [|exact HF]. intros a b Hab. apply alpha_only_eq. apply norm_eq_alpha. exact Hab.
   - intros _ md p t Hs. apply alpha_only_eq. unfold pixels_similar in Hs. lia.
   - discriminate.
+Qed.
+
+(* ------------------------------------------------------------------ *)
+(* AddFrame mixed with pre-encoded frames                               *)
+
+Lemma wf_ops_generic lossy_fine W H ops :
+  Forall (AnimEncSpec.wf_op W H) ops -> Forall (AnimEncProofs.wf_op lossy_fine W H) ops.
+Proof.
+  intros HF. eapply Forall_impl; [|exact HF]. intros [f|r]; cbn; [auto|].
+  intros (H1 & Hl & H3 & H4 & H5 & H6 & H7 & H8 & H9). unfold rec_ok.
+  split; [exact H1|]. split; [rewrite Hl; discriminate|]. repeat split; try assumption; lia.
+Qed.
+
+Theorem anim_mixed_roundtrip : anim_mixed_roundtrip_statement true.
+Proof.
+  intros rt_ll rt_ly W H opts ops oracle fails maxf has_meta simple st0 stf acc out
+         Hcodec Hdims (Hll & Hmx & Hloop) Hwf Hnew Hrun Hcanvas Hclose.
+  destruct (new_encoder_facts W H opts st0 Hnew)
+    as (HW & HH & EW & EH & Erecs & Efc & Eprev & Eloop & Ell & Emx & Eq).
+  rewrite <- (clamp_loop_id (eo_loop opts) Hloop), <- Eloop.
+  unfold same_show.
+  apply (generic_mixed_roundtrip norm_px norm_blend norm_zero rt_ll rt_ly repaired eq_refl eq_refl false)
+    with (maxf := maxf) (oracle := oracle) (fails := fails) (has_meta := has_meta) (simple := simple)
+         (st0 := st0) (ops := ops) (stf := stf); try assumption; try reflexivity;
+    try (match goal with |- _ <= max_canvas_dimension => unfold wf_canvas_dims in Hdims; lia end).
+  - intros via r Hwfi Hl. unfold decoded. destruct (m_lossy r); [specialize (Hl eq_refl); discriminate|].
+    destruct (Hcodec (m_img r) Hwfi) as (Hw & Hh & HF). repeat split; assumption.
+  - intros Habs. rewrite Ell, Hll in Habs. discriminate.
+  - intros _. rewrite Ell, Emx. split; assumption.
+  - apply wf_ops_generic. exact Hwf.
+  - exact (Hcanvas eq_refl).
+Qed.
+
+Theorem anim_mixed_alpha : anim_mixed_alpha_statement.
+Proof.
+  intros rt_ll rt_ly W H opts ops oracle fails maxf has_meta simple st0 stf acc out
+         Hll Hly Hdims (Hq & Hloop) Hwf Hnew Hrun Hcanvas Hclose.
+  destruct (new_encoder_facts W H opts st0 Hnew)
+    as (HW & HH & EW & EH & Erecs & Efc & Eprev & Eloop & Ell & Emx & Eq).
+  rewrite <- (clamp_loop_id (eo_loop opts) Hloop), <- Eloop.
+  apply (generic_mixed_roundtrip alpha_only alpha_blend) with (rt_ll := rt_ll) (rt_ly := rt_ly)
+    (lossy_fine := true) (maxf := maxf) (oracle := oracle) (fails := fails) (has_meta := has_meta)
+    (simple := simple) (st0 := st0) (ops := ops) (stf := stf);
+    try assumption; try reflexivity;
+    try (match goal with |- _ <= max_canvas_dimension => unfold wf_canvas_dims in Hdims; lia end).
+  - intros p q Hp Hq'. apply alpha_only_eq. lia.
+  - intros via r Hwfi _. unfold decoded. destruct (m_lossy r).
+    + cbn [repaired fix_alph orb].
+      destruct (Hly (m_img r) Hwfi) as (Hw & Hh & Hpa & _). repeat split; try assumption.
+      apply map_pa_Forall2. exact Hpa.
+    + destruct (Hll (m_img r) Hwfi) as (Hw & Hh & HF). repeat split; try assumption.
+      eapply Forall2_weaken; [|exact HF]. intros a b Hab. apply alpha_only_eq. apply norm_eq_alpha. exact Hab.
+  - intros _ md p t Hs. apply alpha_only_eq. unfold pixels_similar in Hs. lia.
+  - discriminate.
+  - apply wf_ops_generic. exact Hwf.
 Qed.
